@@ -128,3 +128,13 @@ Theorem C12_session_equiv_broken_refuted :
     snd (sess_step_broken (fst (sess_run_broken empty_session h)) (IEval k e)) = OErr EInfRec /\
     spec_run n (defs_of h) e = Val v.
 Proof. exact session_equiv_broken_refuted_lemma. Qed.
+
+(* eval_record_spine's lock protocol: the variant of eval_guarded that does not unlock on the
+   error path leaves a locked thunk behind an abandoned eval_record_spine, and the next
+   eval_record_spine differs from the stand-alone one. *)
+Theorem C12_spine_nounlock_refuted :
+  exists h k e,
+    count_locked (sheap (fst (sess_run_nounlock empty_session h))) <> 0 /\
+    snd (sess_step_nounlock (fst (sess_run_nounlock empty_session h)) (ISpine k e))
+    <> snd (sess_step_nounlock empty_session (ISpine k (chain (defs_of h) e))).
+Proof. exact spine_nounlock_refuted_lemma. Qed.
